@@ -402,3 +402,87 @@ Definition bias_loop_items (need_main_thread : bool) (c : cfg) (t : nat) (ob : l
 
 (* the log of a loop: every item appends its messages when it runs (one proxy->log call per message, serialised) *)
 Definition log_of {A} (msgs : list (list A)) (order : list nat) : list A := concat (pick msgs order).
+
+(* ------------------------------------------------------------------------------------------- *)
+(* 9. The item list as state of the module                                                      *)
+(* ------------------------------------------------------------------------------------------- *)
+(* colvars_smp / colvars_smp_items are members of colvarmodule that survive between steps; calc_colvars clears and refills
+   them at EVERY step from the active set of that step.  [rebuild_items old c t] is the list after the step-t rebuild when
+   [old] was the list before. *)
+Definition rebuild_items (old : list (nat * nat)) (c : cfg) (t : nat) : list (nat * nat) :=
+  build_items (active_vars t (prep_vars t (c_vars c))).
+(* a variant that keeps the old list when the total number of items is unchanged (what a seeded change did) *)
+Definition rebuild_items_cached (old : list (nat * nat)) (c : cfg) (t : nat) : list (nat * nat) :=
+  let fresh := build_items (active_vars t (prep_vars t (c_vars c))) in
+  if Nat.eqb (length fresh) (length old) then old else fresh.
+(* the list over a history of steps 0..n-1 (configuration carried by next_cfg) *)
+Fixpoint items_history (rebuild : list (nat * nat) -> cfg -> nat -> list (nat * nat))
+         (old : list (nat * nat)) (c : cfg) (t n : nat) : list (list (nat * nat)) :=
+  match n with
+  | O => []
+  | S m => let l := rebuild old c t in l :: items_history rebuild l (next_cfg c t) (S t) m
+  end.
+
+(* ------------------------------------------------------------------------------------------- *)
+(* 10. The step that raises "all CVCs are disabled"                                              *)
+(* ------------------------------------------------------------------------------------------- *)
+(* serial path: calc_colvars runs colvar::calc() variable by variable and RETURNS at the first variable whose
+   update_cvc_flags fails (the variables before it are computed and collected, the failing one and the ones after it keep
+   their old values); SMP path: update_cvc_flags of every active variable, then all items, then every collection (the failing
+   variable has no item and collects the empty sum).  Component/collection part of the step only. *)
+Fixpoint serial_vars_until_error (avs : list (nat * var)) : list (nat * var) :=
+  match avs with
+  | [] => []
+  | p :: r => if negb (any_true (v_flags (snd p))) then [] else p :: serial_vars_until_error r
+  end.
+Definition serial_cvc_items_err (c : cfg) (t : nat) : list sitem :=
+  flat_map serial_var_items (serial_vars_until_error (active_vars t (prep_vars t (c_vars c)))).
+Definition smp_cvc_items_err (c : cfg) (t : nat) : list sitem :=
+  let vs := prep_vars t (c_vars c) in
+  concat (smp_cvc_work vs t) ++ map collect_item (active_vars t vs).
+
+(* ------------------------------------------------------------------------------------------- *)
+(* 11. Small steps: an item is a read phase, a computation and a write phase                     *)
+(* ------------------------------------------------------------------------------------------- *)
+(* [Rd i]: item i copies the store (what it will look at is its read set) into a private buffer; [Wr i]: it assigns
+   [act] of that buffer to its write set.  A trace is any sequence of such micro-operations; between the two phases of one
+   item the phases of other items (running on other threads) may occur. *)
+Inductive mop := Rd (i : nat) | Wr (i : nat).
+
+Section SmallStep.
+  Context {L V : Type}.
+  Variable eqb : L -> L -> bool.
+
+  Fixpoint lookup_buf (i : nat) (bufs : list (nat * (L -> V))) : option (L -> V) :=
+    match bufs with
+    | [] => None
+    | (j, b) :: r => if Nat.eqb j i then Some b else lookup_buf i r
+    end.
+  Definition remove_buf (i : nat) (bufs : list (nat * (L -> V))) : list (nat * (L -> V)) :=
+    filter (fun p => negb (Nat.eqb (fst p) i)) bufs.
+
+  Fixpoint mrun (items : list (item L V)) (tr : list mop) (s : L -> V) (bufs : list (nat * (L -> V))) : L -> V :=
+    match tr with
+    | [] => s
+    | Rd i :: r => mrun items r s ((i, s) :: bufs)
+    | Wr i :: r =>
+      mrun items r
+           (match nth_error items i, lookup_buf i bufs with
+            | Some a, Some b => fun l => if mem eqb l (writes a) then act a b l else s l
+            | _, _ => s
+            end)
+           (remove_buf i bufs)
+    end.
+End SmallStep.
+
+(* a trace is well formed when an item is read only while it is not in flight and written only while it is *)
+Fixpoint valid_trace (tr : list mop) (inflight : list nat) : Prop :=
+  match tr with
+  | [] => True
+  | Rd i :: r => ~ In i inflight /\ valid_trace r (i :: inflight)
+  | Wr i :: r => In i inflight /\ valid_trace r (filter (fun k => negb (Nat.eqb k i)) inflight)
+  end.
+(* the order in which the items commit *)
+Definition wr_order (tr : list mop) : list nat := flat_map (fun o => match o with Wr i => [i] | Rd _ => [] end) tr.
+(* what one thread does with its queue of items *)
+Definition thread_mops (q : list nat) : list mop := flat_map (fun i => [Rd i; Wr i]) q.
